@@ -1030,3 +1030,12 @@ M("c04-blocked-edge-walk-steps-after-the-test", "C04", "cola/libavoid/router.cpp
   "        EdgeInf *tmp = iter;\n        iter = iter->lstNext;\n\n        if (tmp->blocker() == -1)\n        {\n            tmp->alertConns();\n            tmp->checkVis();\n        }\n        else if (tmp->blocker() == pid)\n        {\n            tmp->checkVis();\n        }\n",
   "        EdgeInf *tmp = iter;\n\n        if (tmp->blocker() == -1)\n        {\n            tmp->alertConns();\n            tmp->checkVis();\n        }\n        else if (tmp->blocker() == pid)\n        {\n            tmp->checkVis();\n        }\n        iter = iter->lstNext;\n",
   mention=["LIST-WALK-SAVES-NEXT"])
+
+# ---------------------------------------------------------------- round j
+M("c14-double-bend-second-direction-lost", "C14", "cola/libdialect/chains.cpp",
+  "                config.push_back({dir0, dir1});\n                direc = dir1;", "                config.push_back({dir0, dir0});\n                direc = dir1;", mention=["CHAIN-DIRECTIONS"])
+M("c14-neutral-double-bend-locals-renamed", "C14", "cola/libdialect/chains.cpp",
+  "                CardinalDir dir0 = applyBendToDir.at(bt0).at(direc),\n                            dir1 = applyBendToDir.at(bt1).at(dir0);\n                config.push_back({dir0, dir1});\n                direc = dir1;",
+  "                CardinalDir afterNode = applyBendToDir.at(bt0).at(direc);\n                CardinalDir afterEdge = applyBendToDir.at(bt1).at(afterNode);\n                config.push_back({afterNode, afterEdge});\n                direc = afterEdge;", expect="silent")
+M("c14-left-anchor-direction-reversed", "C14", "cola/libdialect/chains.cpp",
+  "            CardinalDir dIn = m_graph->getSepMatrix().getCardinalDir(A->id(), b->id());", "            CardinalDir dIn = m_graph->getSepMatrix().getCardinalDir(b->id(), A->id());", mention=["CHAIN-DIRECTIONS"])
